@@ -59,6 +59,15 @@ func viewOf(ws *workspace.Workspace, dir string) wsView {
 	}
 	sort.Strings(members)
 	v.fields["members"] = strings.Join(members, ",")
+	if res != nil {
+		var order []string
+		for _, p := range res.FileOrder {
+			order = append(order, rel(p))
+		}
+		// the order in which a resolution visits the member files (directives and transactions
+		// are concatenated in it: later declarations override earlier ones)
+		v.fields["fileOrder"] = strings.Join(order, ",")
+	}
 	if snap.Accounts != nil {
 		v.fields["accounts"] = strings.Join(sortedCopy(snap.Accounts.All), ",")
 		var bp []string
@@ -163,7 +172,7 @@ func c12Counts(tier string) int64 {
 func init() {
 	Register(&Prop{
 		ID:          "C12",
-		Rule:        "workspaces of 2-5 files (main.journal root, include directives chosen per content variant) whose files are journals from G drawn from shared account/payee/commodity/tag pools; update sequences of length <= 8, each replacing one file on disk by another variant (other entries and possibly another include list: edges added/removed, files becoming unreachable/reachable again) followed by Workspace.UpdateFile. After EVERY step the incremental workspace is compared with a fresh workspace + fresh loader initialised on the same disk state: member files, accounts (+by prefix), payees, commodities, tags, tag values, dates, all count maps, tag-value counts, transaction index (per key the multiset of file+range), declared accounts/commodities, commodity formats; payee templates must be one of the templates a member file provides. Getters are called after every step, so caches are warm before the next update. Non-trivial = sequence with >=1 update that changes an include list; distinct by hash of the sequence.",
+		Rule:        "workspaces of 2-5 files (main.journal root, include directives chosen per content variant) whose files are journals from G drawn from shared account/payee/commodity/tag pools; update sequences of length <= 8, each replacing one file on disk by another variant (other entries and possibly another include list: edges added/removed or merely re-ordered, files becoming unreachable/reachable again) followed by Workspace.UpdateFile. After EVERY step the incremental workspace is compared with a fresh workspace + fresh loader initialised on the same disk state: member files and their resolution order, accounts (+by prefix), payees, commodities, tags, tag values, dates, all count maps, tag-value counts, transaction index (per key the multiset of file+range), declared accounts/commodities, commodity formats; payee templates must be one of the templates a member file provides. Getters are called after every step, so caches are warm before the next update. Non-trivial = sequence with >=1 update that changes an include list; distinct by hash of the sequence.",
 		Notes:       []string{"where a fresh initialisation is itself ambiguous (same payee with different templates in two files) any member file's template is accepted", "files are rendered from the clean pool of G (C03 findings excluded)"},
 		Cases:       c12Counts,
 		MustObserve: []string{"updates", "views_compared", "updates_changing_includes"},
@@ -197,12 +206,23 @@ func runC12(c *Ctx, idx int64) {
 				}
 				if r.Chance(p, 10) {
 					inc = append(inc, t)
-					relp := names[t]
-					if strings.HasPrefix(names[f], "sub/") {
-						relp = "../" + names[t]
-					}
-					fmt.Fprintf(&sb, "include %s\n", relp)
 				}
+			}
+			// every second variant repeats the previous include set in another order (directive order
+			// decides the resolved file order, which decides whose format/template wins)
+			if v%2 == 1 && len(incl[f][v-1]) >= 2 {
+				prev := incl[f][v-1]
+				inc = nil
+				for _, k := range r.Perm(len(prev)) {
+					inc = append(inc, prev[k])
+				}
+			}
+			for _, t := range inc {
+				relp := names[t]
+				if strings.HasPrefix(names[f], "sub/") {
+					relp = "../" + names[t]
+				}
+				fmt.Fprintf(&sb, "include %s\n", relp)
 			}
 			if len(inc) > 0 {
 				sb.WriteString("\n")
